@@ -60,8 +60,8 @@ func genRecords(t *rapid.T, label string, max int) [][]byte {
 
 func TestC05(t *testing.T) {
 	rec := ev.Get("C05")
-	rec.Rule("syntactically valid ClientHellos without an acceptable ECH: no ECH / GREASE ECH (random or matching id and suite) / authentic ECH to a key the server lacks / ECH present but TLS 1.3 not offered / no extension block / empty block; sizes to 16 KiB; key sets none, unrelated, same-id; followed by 0..5 arbitrary records each way. Oracle: bytes read from Conn == bytes sent (record version of the hello excepted), bytes written reach the client unchanged, ServerName/ALPN == harness decoder == crypto/tls ClientHelloInfo. distinct = hello hash; non-trivial = unknown extension type, GREASE ECH or no TLS 1.3")
-	rec.Mandatory("odd_legacy_version", "kind:no_ech", "kind:grease", "kind:grease_matching_id", "kind:foreign_key", "kind:no_tls13_with_ech", "kind:no_ext_block", "kind:empty_ext_block", "size_ge12k", "tls10_only", "keys:none", "keys:unrelated", "keys:same_id", "tls_oracle_used")
+	rec.Rule("syntactically valid ClientHellos without an acceptable ECH: no ECH / GREASE ECH (random or matching id and suite; enc usually 32 bytes, sometimes of a length or value the KEM refuses) / authentic ECH to a key the server lacks / ECH present but TLS 1.3 not offered / no extension block / empty block; sizes to 16 KiB; key sets none, unrelated, same-id; followed by 0..5 arbitrary records each way. Oracle: bytes read from Conn == bytes sent (record version of the hello excepted), bytes written reach the client unchanged, ServerName/ALPN == harness decoder == crypto/tls ClientHelloInfo. distinct = hello hash; non-trivial = unknown extension type, GREASE ECH or no TLS 1.3")
+	rec.Mandatory("odd_legacy_version", "kind:no_ech", "kind:grease", "kind:grease_matching_id", "kind:foreign_key", "kind:no_tls13_with_ech", "kind:no_ext_block", "kind:empty_ext_block", "size_ge12k", "tls10_only", "keys:none", "keys:unrelated", "keys:same_id", "tls_oracle_used", "enc_unusable_for_kem")
 	rapid.Check(t, func(t *rapid.T) {
 		pub := hello.GenName(t, "public_name", 253)
 		key := drawKey(t, "key", -1, pub)
@@ -71,7 +71,20 @@ func TestC05(t *testing.T) {
 		var cl0 []string
 		suite := key.Suites[0]
 		grease := func(id uint8, s hello.Suite) []byte {
-			return hello.ECHOuterExt(s.KDF, s.AEAD, id, hello.GenBytes(t, "g_enc", 32), hello.GenBytes(t, "g_payload", rapid.IntRange(17, 400).Draw(t, "g_plen")))
+			// enc: usually a plausible X25519 share; sometimes something the KEM refuses (wrong
+			// length, the all-zero low-order point): still just an undecryptable extension.
+			// (An empty enc is left out: it is the retry form and its handling on a first hello is
+			// not pinned down by the draft.)
+			enc := hello.GenBytes(t, "g_enc", 32)
+			switch rapid.IntRange(0, 5).Draw(t, "g_enc_kind") {
+			case 0:
+				enc = hello.GenBytes(t, "g_enc_odd", []int{1, 16, 31, 33, 48, 64, 65}[uniform(t, "g_enc_len", 7)])
+				cl0 = append(cl0, "enc_unusable_for_kem")
+			case 1:
+				enc = make([]byte, 32)
+				cl0 = append(cl0, "enc_unusable_for_kem")
+			}
+			return hello.ECHOuterExt(s.KDF, s.AEAD, id, enc, hello.GenBytes(t, "g_payload", rapid.IntRange(17, 400).Draw(t, "g_plen")))
 		}
 		keysKind := []string{"none", "unrelated", "same_id"}[uniform(t, "keyskind", 3)]
 		switch kind {
